@@ -1,6 +1,12 @@
 package c15
 
 import (
+	"encoding/json"
+	"fmt"
+	"os"
+	"path/filepath"
+	"strconv"
+	"strings"
 	"testing"
 
 	"verifharness/vt"
@@ -8,3 +14,92 @@ import (
 
 func TestProp(t *testing.T)   { vt.RunAll(t, 6000) }
 func TestReplay(t *testing.T) { vt.ReplayAll(t) }
+
+// TestExhaustive evaluates EVERY cell of the enumerated sub-domain (see exhaustive.go). It runs in the thorough tier
+// (VERIF_TIER=thorough) or when VERIF_EXHAUSTIVE=1; VERIF_EXH_PART="i/n" restricts it to the cells with index = i mod n.
+func TestExhaustive(t *testing.T) {
+	if vt.Tier() != "thorough" && os.Getenv("VERIF_EXHAUSTIVE") == "" {
+		t.Skip("exhaustive enumeration runs in the thorough tier only")
+	}
+	part, parts := 0, 1
+	if s := os.Getenv("VERIF_EXH_PART"); s != "" {
+		f := strings.Split(s, "/")
+		if len(f) == 2 {
+			part, _ = strconv.Atoi(f[0])
+			parts, _ = strconv.Atoi(f[1])
+		}
+		if parts < 1 || part < 0 || part >= parts {
+			t.Fatalf("bad VERIF_EXH_PART %q", s)
+		}
+	}
+	sp := exhaustiveSpace()
+	n, nt, excluded := 0, 0, 0
+	labels := map[string]int{}
+	for idx := part; idx < sp.size(); idx += parts {
+		o := &cls{}
+		err := func() (err error) {
+			defer func() {
+				if r := recover(); r != nil {
+					err = fmt.Errorf("PANIC: %v", r)
+				}
+			}()
+			return evalExhaustive(ExCase{Idx: idx}, o)
+		}()
+		if err != nil {
+			cell, _ := sp.cell(idx)
+			cj, _ := json.Marshal(cell)
+			dir := os.Getenv("VERIF_FAILDIR")
+			if dir == "" {
+				root := os.Getenv("VERIF_ROOT")
+				if root == "" {
+					root = "/verif"
+				}
+				dir = filepath.Join(root, "replays", vt.PropertyID)
+			}
+			_ = os.MkdirAll(dir, 0o755)
+			p := filepath.Join(dir, "fail-exhaustive-enum.json")
+			env := map[string]any{"property": vt.PropertyID, "check": "exhaustive", "error": err.Error(), "case": ExCase{Idx: idx}}
+			b, _ := json.MarshalIndent(env, "", " ")
+			_ = os.WriteFile(p, b, 0o644)
+			fmt.Printf("EXHAUSTIVE-FAIL idx=%d replay=%s cell=%s\n", idx, p, cj)
+			t.Fatalf("enumerated cell %d fails: %v", idx, err)
+		}
+		n++
+		if o.nontrivial {
+			nt++
+		}
+		if o.excluded {
+			excluded++
+		}
+		for _, l := range o.labels {
+			labels[l]++
+		}
+	}
+	fmt.Printf("EXHAUSTIVE cells=%d of=%d part=%d/%d nontrivial=%d excluded_known=%d true=%d false=%d fault=%d\n",
+		n, sp.size(), part, parts, nt, excluded, labels["outcome/true"], labels["outcome/false"], labels["outcome/FAULT"])
+}
+
+// knownZeroCallerCase is the minimal form of finding KnownZeroCaller: the entry script checks the witness of a signer
+// whose only rule is Allow CalledByContract(00..00); nothing calls the entry script.
+const knownZeroCallerCase = `{"signers":[{"acct":10,"scope":64,"rules":[{"allow":true,"cond":{"t":"byhash","h":9}}]}],"hops":[],"leaf":0,"acct":{"ref":10}}`
+
+// TestKnownZeroCaller re-confirms the listed finding (the checks skip that exact shape while it is listed as known).
+func TestKnownZeroCaller(t *testing.T) {
+	if !vt.Known(KnownZeroCaller) {
+		t.Skip("finding not listed as known: TestProp generates the shape itself")
+	}
+	var c Case
+	if err := json.Unmarshal([]byte(knownZeroCallerCase), &c); err != nil {
+		t.Fatalf("bad fixed case: %v", err)
+	}
+	err := evalCell(c, &cls{}, false)
+	if err == nil {
+		t.Logf("fixed case no longer fails")
+		return
+	}
+	msg := err.Error()
+	if i := strings.Index(msg, "; signers"); i >= 0 {
+		msg = msg[:i]
+	}
+	vt.KnownFinding(KnownZeroCaller, msg)
+}
